@@ -25,3 +25,81 @@ Proof. vm_compute. split; reflexivity. Qed.
 Lemma read_workers_always_declare_end :
   forallb (fun x => negb (is_read_thread (sk_name x)) || (sk_handler_eof x && sk_normal_eof x && sk_inner x)) thread_skeletons = true.
 Proof. vm_compute. reflexivity. Qed.
+
+(* ====================================================================================== *)
+(* memory safety of the decoders regenerated from /repo: rd_safe evaluated on every read program *)
+From VB Require Import Base IR Sem Tables BaseFacts EvalFacts Roundtrip FreshFacts SafeFacts.
+From VB Require Import Classes Consts Common.
+From Coq Require Import ZArith Lia.
+Local Open Scope Z_scope.
+
+Definition Rd (c : Z) : prog := prog_of cs c M_read.
+
+(* classes whose read program is outside the check (reported in the evidence; exercised under ASan only) *)
+Definition safe_exception_names : list string := []%list.
+Definition safe_exceptions : list Z := map class_of_name safe_exception_names.
+
+Definition all_fdefs : list fdef := flat_map c_fields cs.
+
+Lemma rd_safe_all : forallb (fun c => rd_safe cs (Rd c)) (minus object_classes safe_exceptions) = true.
+Proof. vm_compute. reflexivity. Qed.
+
+Lemma field_sizes_ok : forallb (fun x => (0 <=? kelt (f_kind x)) && match ksize (f_kind x) with Some w => (0 <=? w) && (w <? 2 ^ 60) | None => true end) all_fdefs = true.
+Proof. vm_compute. reflexivity. Qed.
+
+Lemma find_field_in f x : find_field cs f = Some x -> In x all_fdefs.
+Proof.
+  unfold find_field, find_class. intros H. destruct (find (fun d => c_id d =? f / 256) cs) as [d|] eqn:Hd; [|discriminate].
+  apply find_some in Hd. destruct Hd as [Hd _]. apply find_some in H. destruct H as [H _].
+  unfold all_fdefs. apply in_flat_map. exists d. split; assumption.
+Qed.
+
+Lemma kelt_nonneg f x : find_field cs f = Some x -> 0 <= kelt (f_kind x).
+Proof.
+  intros H. pose proof (proj1 (forallb_forall _ _) field_sizes_ok x (find_field_in f x H)) as B.
+  apply andb_prop in B. destruct B as [B _]. apply Z.leb_le. exact B.
+Qed.
+Lemma ksize_small f x w : find_field cs f = Some x -> ksize (f_kind x) = Some w -> 0 <= w < 2 ^ 60.
+Proof.
+  intros H Hw. pose proof (proj1 (forallb_forall _ _) field_sizes_ok x (find_field_in f x H)) as B.
+  apply andb_prop in B. destruct B as [_ B]. rewrite Hw in B. apply andb_prop in B. destruct B as [B1 B2].
+  split; [apply Z.leb_le; exact B1|apply Z.ltb_lt; exact B2].
+Qed.
+
+Lemma sig_in_type : forall x t, find_field cs (sp_field scan_p) = Some x -> f_kind x = KScalar t -> in_type t (sp_sig scan_p) = true.
+Proof.
+  intros x t H K. vm_compute in H. inversion H; subst x. cbn in K. inversion K; subst t. reflexivity.
+Qed.
+
+Lemma cap_small : default_cap < 2 ^ 60.
+Proof. reflexivity. Qed.
+
+(* a well-shaped state (as every freshly constructed object is) satisfies the invariant of the theorem *)
+Lemma wf_st_ok s : wf_state cs s -> st_ok cs s.
+Proof.
+  intros W. split.
+  - intros f x t z Hx Hk Hv. specialize (W f x Hx). unfold shape_ok in W. rewrite Hk, Hv in W. exact W.
+  - intros f x b Hx Hv. specialize (W f x Hx). unfold shape_ok in W. rewrite Hv in W.
+    destruct (f_kind x) as [t|e n|e] eqn:Hk; try contradiction.
+    + rewrite W. assert (Hw : ksize (f_kind x) = Some (e * n)) by (rewrite Hk; reflexivity).
+      apply (ksize_small f x (e * n) Hx Hw).
+    + destruct W as [_ W]. change (2 ^ 28) with 268435456 in W. change (2 ^ 60) with 1152921504606846976. lia.
+Qed.
+
+(* C10 (decoders): for every object class of the library, decoding ANY byte stream into a fresh object
+   never writes beyond the capacity of a destination container, whatever sizes and lengths it declares *)
+Theorem decoders_memory_safe : forall c, In c object_classes -> ~ In c safe_exceptions ->
+  fresh_wf_b cs c = true ->
+  forall i, dec cs scan_p default_cap c (fresh cs c) i <> Err EOOBWrite.
+Proof.
+  intros c Hc Hex Hw i. unfold dec.
+  pose proof (forallb_minus (fun c => rd_safe cs (Rd c)) _ _ rd_safe_all c Hc Hex) as Hs. unfold rd_safe, Rd in Hs.
+  apply (rd_safe_sound cs (callf cs c) scan_p default_cap (callf_no_oobw cs c) sig_in_type cap_small kelt_nonneg ksize_small
+           (prog_of cs c M_read) None Hs (fresh cs c) no_locals i).
+  - apply wf_st_ok. apply fresh_wf. exact Hw.
+  - exact I.
+Qed.
+
+(* every class of the round-trip theorem has a well-shaped fresh object (used as the premise above) *)
+Lemma fresh_all_wf : forallb (fresh_wf_b cs) (minus object_classes safe_exceptions) = true.
+Proof. vm_compute. reflexivity. Qed.
